@@ -723,7 +723,7 @@ theorem replayAux_corrupt_at (cfg : Cfg) (stop s0 p : Nat) (rp : Rec) (fuel : Na
     rest.length = rest'.length → pos ≤ p →
     rest.take (p + hdr rp - pos) = rest'.take (p + hdr rp - pos) →
     (p, rp) ∈ walkAux fuel rest pos →
-    (∀ q c' l', (q, Rec.sep c' l') ∈ walkAux fuel rest pos → q < p → q + 12 + l' ≤ p) →
+    (∀ q c' l', (q, Rec.sep c' l') ∈ walkAux fuel rest pos → q < p → q + 12 + l' ≤ p + hdr rp) →
     (∀ q, (q, Rec.savepoint) ∈ walkAux fuel rest pos → q ≠ s0) →
     (replayAux cfg s0 fuel rest pos first m).rc = .ok →
     (∀ x, (applyB cfg rp (body rp (rest'.drop (p - pos))) x).1 = .corrupted) →
@@ -777,7 +777,7 @@ theorem replayAux_corrupt_at (cfg : Cfg) (stop s0 p : Nat) (rp : Rec) (fuel : Na
             simp
           · have hge := walkAux_pos_ge n _ _ _ _ htail
             have ⟨hsepadv, _⟩ := parse_adv_eq hp
-            have hneed : need r adv ≤ p - pos := by
+            have hneed : need r adv ≤ p + hdr rp - pos := by
               cases r with
               | sep c' l' =>
                 have := hdisj pos c' l' (Or.inl ⟨rfl, rfl⟩) (by omega)
